@@ -26,7 +26,7 @@ import (
 // readerEmptyBatches: false while D14 (panic "markRead: negative count" in a background goroutine of the Reader,
 // which kills the process) is unfixed: logs are generated with emptyBias=0 and an empty batch directly following
 // another empty batch is removed from the log.  Flip after the fix.
-const readerEmptyBatches = false
+const readerEmptyBatches = true
 
 // VERIF_RD_DEBUG=<substring>: run only the reader scenarios whose argument string contains it, with the library's
 // loggers and a broker trace on stderr.
@@ -101,8 +101,12 @@ func (sc *rdScenario) args() string {
 		}
 		ss = strings.Join(l, ";")
 	}
-	return fmt.Sprintf("reader v=%d start=%s q=%d budgets=%s faults=%s trunc=%s sets=%s hwm=%d L=%s",
-		sc.Ver, sc.Start, sc.Q, strings.Join(bs, ","), fs, tr, ss, sc.Hwm, layoutText(sc.Items))
+	firsts := make([]string, len(sc.Items))
+	for i, it := range sc.Items {
+		firsts[i] = strconv.FormatInt(itemFirst(it), 10)
+	}
+	return fmt.Sprintf("reader v=%d start=%s q=%d budgets=%s faults=%s trunc=%s sets=%s hwm=%d firsts=%s L=%s",
+		sc.Ver, sc.Start, sc.Q, strings.Join(bs, ","), fs, tr, ss, sc.Hwm, strings.Join(firsts, ","), layoutText(sc.Items))
 }
 
 // ------------------------------------------------------------------------------------------------ broker side
@@ -539,7 +543,7 @@ func genReaderScenario(r *rand.Rand, ver int) *rdScenario {
 			sc.Faults[j-1], sc.Faults[j] = sc.Faults[j], sc.Faults[j-1]
 		}
 	}
-	if r.Intn(4) == 0 && hwm-first >= 1 {
+	if r.Intn(4) == 0 && hwm-first >= 1 && sc.TruncIdx < 0 { // SetOffset scripts are not combined with log truncation
 		k, from := 0, startOff
 		for j, n := 0, 1+r.Intn(2); j < n; j++ {
 			avail := recsFrom(items, from)
